@@ -69,14 +69,15 @@ pub fn explore<M: SmModel>(m: &M, lim: &Limits, start: std::time::Instant) -> Sm
         }
         // a level is atomic (it must be completed for the "levels <= d are complete" claim), so the
         // budget is applied predictively: estimated cost of the next level = last level x growth
-        let elapsed = start.elapsed().as_secs_f64();
+        let elapsed = crate::common::effective_secs(start);
+        let wall = start.elapsed().as_secs_f64();
         let predicted = last_level_s * growth.max(2.0);
-        if elapsed > lim.budget_s || (depth > 3 && elapsed + predicted > lim.budget_s) {
-            capped = Some(format!("wall budget {:.0}s: level {depth} not started (elapsed {:.1}s, predicted {:.1}s); levels < {depth} are complete", lim.budget_s, elapsed, predicted));
+        if elapsed > lim.budget_s || wall > 6.0 * lim.budget_s || (depth > 3 && elapsed + predicted > lim.budget_s) {
+            capped = Some(format!("budget {:.0}s: level {depth} not started (elapsed {:.1}s, predicted {:.1}s); levels < {depth} are complete", lim.budget_s, elapsed, predicted));
             depth_completed = depth - 1;
             break;
         }
-        let level_start = std::time::Instant::now();
+        let level_start = crate::common::effective_secs(start);
         // expand the level in parallel; results stay in frontier order
         let expanded: Vec<(Vec<(u128, M::State)>, Acc, u64)> = frontier
             .par_iter()
@@ -117,7 +118,7 @@ pub fn explore<M: SmModel>(m: &M, lim: &Limits, start: std::time::Instant) -> Sm
         // per-unique-state work
         let au = next.par_iter().fold(Acc::default, |mut a, s| { m.on_unique(s, &mut a); a }).reduce(Acc::default, |a, b| a.merge(b));
         acc = acc.merge(au);
-        let this = level_start.elapsed().as_secs_f64();
+        let this = crate::common::effective_secs(start) - level_start;
         if last_level_s > 0.01 {
             growth = this / last_level_s;
         }
